@@ -131,3 +131,418 @@ RULES["C11"] = ("single-object definitions whose field ranges are drawn around e
 
 CHECKS = {"C11": check_c11}
 NONTRIVIAL = {"C11": nontrivial_c11}
+
+
+# ------------------------------------------------------------------------------------ C15 / C07 (enums)
+
+ENUM_KINDS = {"enum_empty", "enum_dup_value", "enum_value_too_high", "enum_multi_default", "enum_multi_catch_all",
+              "enum_not_total", "enum_too_big"}
+
+
+def enum_numbering(variants):
+    """Implicit numbering from 0, continuing one above the previous variant whatever its kind."""
+    nums, prev = [], None
+    for v in variants:
+        val = v.get("value")
+        if val in (None, "default", "catch_all"):
+            n = 0 if prev is None else prev + 1
+        else:
+            n = int(val)
+        nums.append(n)
+        prev = n
+    return nums
+
+
+def enum_ok(width, variants, use_try):
+    """The property's acceptance conditions for an inline enum on a uint field of `width` bits.
+    Returns (ok, reasons)."""
+    reasons = []
+    if not variants:
+        return False, ["empty"]
+    nums = enum_numbering(variants)
+    by_cfg = {}
+    for v, n in zip(variants, nums):
+        by_cfg.setdefault(v.get("cfg"), []).append(n)
+    if any(len(ns) != len(set(ns)) for ns in by_cfg.values()):
+        reasons.append("dup_number")
+    if any(n < 0 for n in nums):
+        reasons.append("negative")
+    if any(n >= (1 << width) for n in nums):
+        reasons.append("too_high")
+    kinds = [v.get("value") for v in variants]
+    if kinds.count("default") > 1:
+        reasons.append("multi_default")
+    if kinds.count("catch_all") > 1:
+        reasons.append("multi_catch_all")
+    fallback = "default" in kinds or "catch_all" in kinds
+    total = fallback or set(range(1 << width)) <= set(nums)
+    if not use_try and not total:
+        reasons.append("not_total")
+    return (not reasons), reasons
+
+
+def the_enum_field(c):
+    r = c["adef"]["objects"][0]
+    f = r["fields"][0]
+    return r, f, f["conversion"]["enum"], f["conversion"]["try"], f["end"] - f["start"]
+
+
+def check_c15(c, af, a, mf):
+    if c.get("profile") != "enum":
+        return None
+    r, f, e, use_try, width = the_enum_field(c)
+    ok, reasons = enum_ok(width, e["variants"], use_try)
+    oc = af.get("outcome")
+    if oc in ("panic", "abort", "timeout"):
+        return {"why": f"enum definition makes the generator {oc}", "finding": None}
+    if ok:
+        if oc == "error" and af.get("kind") in ENUM_KINDS:
+            return {"why": "a well-formed enum is rejected: " + af["kind"], "finding": None}
+        if oc == "ok":
+            # numbering of the emitted enum (the second, independent numbering)
+            en = [x for x in af.get("enums", []) if x["name"] == "En"]
+            if en:
+                got = [int(v["number"]) for v in en[0]["variants"]]
+                if got != enum_numbering(e["variants"]):
+                    return {"why": f"emitted discriminants {got} differ from the documented numbering {enum_numbering(e['variants'])}", "finding": None}
+        return None
+    if oc == "ok":
+        fid = None
+        if agree(af, mf):
+            if set(reasons) <= {"dup_number", "negative"}:
+                names_differ = True
+                fid = "F8a-enum-duplicate-number-under-different-names" if "dup_number" in reasons else "F8b-enum-negative-number-on-uint"
+                if "dup_number" in reasons and "negative" in reasons:
+                    fid = "F8a-enum-duplicate-number-under-different-names"
+        return {"why": "an ill-formed enum is accepted: " + ",".join(reasons), "finding": fid}
+    return None
+
+
+def nontrivial_c15(c):
+    if c.get("profile") != "enum":
+        return False
+    return len(the_enum_field(c)[2]["variants"]) >= 2
+
+
+RULES["C15"] = ("exhaustive variant lists up to length 3 (quick) / 4 (thorough) over {implicit, 0..3, -1, default, catch_all} x "
+                "widths x try/non-try, plus random enums of width 1..12 with gaps, out-of-range, negative and fully covering "
+                "lists; non-trivial = at least two variants; distinct = distinct (syntax, definition)")
+CHECKS["C15"] = check_c15
+NONTRIVIAL["C15"] = nontrivial_c15
+
+
+def enum_semantics(en):
+    """from / try_from / into of an emitted enum as Python functions over the facts (match arms in order)."""
+    names = [v["name"] for v in en["variants"]]
+    catch = [v["name"] for v in en["variants"] if v["catch_all"]]
+
+    def from_num(raw):
+        arms = (en.get("from") or en.get("try_from"))["arms"]
+        for arm in arms:
+            if int(arm["number"]) == raw:
+                return ("ok", (arm["variant"], None))
+        if en.get("from"):
+            fb = en["from"]["fallback"]
+            if fb.startswith("catch_all:"):
+                return ("ok", (fb.split(":", 1)[1], raw))
+            return ("ok", (en["default"], None))
+        return ("err", (raw, en["try_from"]["target"]))
+
+    def to_num(variant):
+        name, payload = variant
+        for arm in en["into"]:
+            if arm["variant"] == name:
+                return payload if arm["number"] is None else int(arm["number"])
+        return None
+    return from_num, to_num, names, catch
+
+
+def check_c07(c, af, a, mf):
+    if c.get("profile") != "enum" or af.get("outcome") != "ok":
+        return None
+    r, f, e, use_try, width = the_enum_field(c)
+    ens = [x for x in af.get("enums", []) if x["name"] == "En"]
+    if not ens:
+        return {"why": "accepted enum definition but no enum emitted", "finding": None}
+    en = ens[0]
+    from_num, to_num, names, catch = enum_semantics(en)
+    nums = enum_numbering(e["variants"])
+    listed = {}
+    for v, n in zip(en["variants"], nums):
+        if not v["catch_all"]:
+            listed.setdefault(n, v["name"])
+    kinds = [v.get("value") for v in e["variants"]]
+    # precedence: number -> catch-all(raw) -> default -> error(raw, name)
+    hi = 1 << min(width, 12)
+    for raw in list(range(hi)) + [hi + 3]:
+        got = from_num(raw)
+        if raw in listed:
+            want = ("ok", (listed[raw], None))
+        elif "catch_all" in kinds:
+            want = ("ok", (names[kinds.index("catch_all")], raw))
+        elif "default" in kinds:
+            want = ("ok", (names[kinds.index("default")], None))
+        else:
+            want = ("err", (raw, "En"))
+        if got != want:
+            return {"why": f"raw {raw}: conversion gives {got}, the documented precedence gives {want}", "finding": None}
+    # round trip of every unit variant, and of catch-all payloads that are not a listed number
+    for v, n in zip(en["variants"], nums):
+        if v["catch_all"]:
+            for p in range(hi):
+                if p not in listed and from_num(to_num((v["name"], p))) != ("ok", (v["name"], p)):
+                    return {"why": f"catch-all payload {p} does not round-trip", "finding": None}
+        else:
+            back = from_num(to_num((v["name"], None)))
+            first_with_n = listed.get(n)
+            if back != ("ok", (first_with_n, None)) or (first_with_n != v["name"] and enum_ok(width, e["variants"], use_try)[0]):
+                if first_with_n != v["name"]:
+                    # two variants with one number: only reachable through F8 (an ill-formed enum accepted)
+                    return None
+                return {"why": f"variant {v['name']} -> {n} -> {back} does not round-trip", "finding": None}
+    # infallible getters are total on every bit pattern of their field
+    fs = af["field_sets"][0]
+    for ff in fs["fields"]:
+        g = ff.get("getter")
+        if g and g["conv"] == "unsafe_into":
+            w = g["end"] - g["start"]
+            if en.get("try_from"):
+                for raw in range(1 << min(w, 14)):
+                    if from_num(raw)[0] == "err":
+                        return {"why": f"field {ff['name']}: infallible getter reaches unwrap_unchecked on Err for raw value {raw}", "finding": None}
+    return None
+
+
+RULES["C07"] = RULES["C15"] + "; every raw value of the field (exhaustive up to 12 bits) is pushed through the emitted match arms"
+CHECKS["C07"] = check_c07
+NONTRIVIAL["C07"] = lambda c: c.get("profile") == "enum" and len(the_enum_field(c)[2]["variants"]) >= 2
+
+
+# ------------------------------------------------------------------------------------ C08 (reset values)
+
+def phys_bit(arr, bo, bito, k):
+    n = len(arr)
+    byte = k // 8 if bo != "BE" else n - 1 - k // 8
+    bit = k % 8 if bito != "MSB0" else 7 - k % 8
+    return (arr[byte] >> bit) & 1
+
+
+def expected_reset(size, bo, bito, reset):
+    """(accepted?, bytes) required by the property. bo may be None for registers of <= 8 bits."""
+    n = (size + 7) // 8
+    if reset is None:
+        return True, [0] * n
+    if "array" in reset:
+        a = reset["array"]
+        if len(a) != n:
+            return False, None
+        if any(phys_bit(a, bo, bito, k) for k in range(size, 8 * n)):
+            return False, None
+        return True, list(a)
+    v = int(reset["int"])
+    le = list(v.to_bytes(16, "little"))
+    if any(le[n:]):
+        return False, None
+    arr = le[:n] if bo != "BE" else le[:n][::-1]
+    if any(phys_bit(arr, bo, bito, k) for k in range(size, 8 * n)):
+        return False, None
+    return True, arr
+
+
+RESET_KINDS = {"reset_bits_above_size", "reset_wrong_length"}
+
+
+def check_c08(c, af, a, mf):
+    if not str(c.get("profile", "")).startswith("reset"):
+        return None
+    adef = c["adef"]
+    regs = {o["name"]: o for o in adef["objects"] if o["kind"] == "register"}
+    refs = [o for o in adef["objects"] if o["kind"] == "ref"]
+    oc = af.get("outcome")
+    if oc in ("panic", "abort", "timeout"):
+        return {"why": f"reset value makes the generator {oc}", "finding": None}
+    verdicts = {}
+    all_ok = True
+    for name, r in regs.items():
+        okv, exp = expected_reset(r["size_bits"], r.get("byte_order"), r.get("bit_order"), r.get("reset"))
+        verdicts[name] = (okv, exp)
+        all_ok &= okv
+    ref_verdicts = {}
+    for rf in refs:
+        t = regs[rf["target"]]
+        if "reset" in rf["override"]:
+            okv, exp = expected_reset(t["size_bits"], t.get("byte_order"), t.get("bit_order"), rf["override"]["reset"])
+            ref_verdicts[rf["name"]] = (okv, exp)
+            all_ok &= okv
+    if not all_ok:
+        if oc == "ok":
+            return {"why": "a reset value with a wrong length or a bit at/above the size is accepted", "finding": None}
+        return None
+    if oc == "error":
+        if af.get("kind") in RESET_KINDS:
+            return {"why": "a valid reset value is rejected: " + af["kind"], "finding": None}
+        return None
+    fss = {fs["name"]: fs for fs in af.get("field_sets", [])}
+    for name, (okv, exp) in verdicts.items():
+        fs = fss.get(name)
+        if fs is None:
+            continue
+        if fs["new"] != exp:
+            return {"why": f"register {name}: new() holds {fs['new']}, declared reset value is {exp}", "finding": None}
+    methods = {m["name"]: m for b in af.get("blocks", []) for m in b["methods"]}
+    for rf in refs:
+        m = methods.get(loose_method(rf["name"]))
+        t = regs[rf["target"]]
+        fs = fss.get(t["name"])
+        if m is None or fs is None:
+            continue
+        if rf["name"] in ref_verdicts:
+            exp = ref_verdicts[rf["name"]][1]
+            ctor = [x for x in fs["new_as"] if x["name"] == m["reset_fn"]]
+            if not m["reset_fn"].startswith("new_as_") or not ctor:
+                return {"why": f"ref {rf['name']} overrides the reset value but its accessor uses {m['reset_fn']}", "finding": None}
+            if ctor[0]["bytes"] != exp:
+                return {"why": f"ref {rf['name']}: {m['reset_fn']}() holds {ctor[0]['bytes']}, declared override is {exp}", "finding": None}
+        else:
+            if m["reset_fn"] != "new":
+                return {"why": f"ref {rf['name']} has no reset override but uses {m['reset_fn']}", "finding": None}
+    return None
+
+
+def loose_method(name):
+    # R12 -> r_12 (convert_case default boundaries split letter/digit); Alias0 -> alias_0
+    out = ""
+    for i, ch in enumerate(name):
+        if i > 0 and ((ch.isdigit() and name[i - 1].isalpha()) or (ch.isupper() and not name[i - 1].isupper())):
+            out += "_"
+        out += ch.lower()
+    return out
+
+
+RULES["C08"] = ("register sizes x {LE,BE} x {LSB0,MSB0} x integer / array / absent reset values, in range and with single "
+                "out-of-range bits set (documented numbering), wrong array lengths, refs with and without their own reset value; "
+                "non-trivial = the case declares a reset value; distinct = distinct (syntax, definition)")
+CHECKS["C08"] = check_c08
+NONTRIVIAL["C08"] = lambda c: str(c.get("profile", "")).startswith("reset") and any(
+    ("reset" in o) or ("reset" in o.get("override", {})) for o in c["adef"]["objects"])
+
+
+# ------------------------------------------------------------------------------------ C18 (cfg)
+
+def split_top(s):
+    parts, depth, cur, instr = [], 0, "", False
+    for ch in s:
+        if ch == '"':
+            instr = not instr
+        if not instr:
+            if ch == "(":
+                depth += 1
+            elif ch == ")":
+                depth -= 1
+            elif ch == "," and depth == 0:
+                parts.append(cur)
+                cur = ""
+                continue
+        cur += ch
+    if cur:
+        parts.append(cur)
+    return parts
+
+
+def cfg_atoms(cfg):
+    if cfg is None:
+        return frozenset()
+    cfg = "".join(cfg.split())
+    if cfg.startswith("all(") and cfg.endswith(")"):
+        out = set()
+        for p in split_top(cfg[4:-1]):
+            out |= cfg_atoms(p)
+        return frozenset(out)
+    return frozenset([cfg])
+
+
+def check_c18(c, af, a, mf):
+    if c.get("profile") != "cfg" or af.get("outcome") != "ok":
+        if c.get("profile") == "cfg" and af.get("outcome") in ("panic", "abort"):
+            return {"why": "cfg tree makes the generator " + af.get("outcome"), "finding": None}
+        return None
+    # expected atoms per object name / enum name
+    want_obj, want_enum, want_block = {}, {}, {}
+
+    def walk(objs, inherited):
+        for o in objs:
+            own = cfg_atoms(o.get("cfg"))
+            here = inherited | own
+            want_obj[o["name"]] = here
+            if o["kind"] == "block":
+                want_block[o["name"]] = here
+                walk(o["objects"], here)
+            for key in ("fields", "fields_in", "fields_out"):
+                for f in o.get(key) or []:
+                    if "conversion" in f and "enum" in f["conversion"]:
+                        want_enum[f["conversion"]["enum"]["name"]] = here | cfg_atoms(f.get("cfg"))
+    walk(c["adef"]["objects"], frozenset())
+    by_loose = {loose(k): v for k, v in want_obj.items()}
+    fid = None
+    def bad(what, got, want):
+        return {"why": f"{what}: gate {sorted(got)} but own+enclosing cfgs are {sorted(want)}", "finding": fid}
+    known = agree(af, mf) and multi_level_drop(c["adef"]["objects"])
+    fid = "F10-cfg-stack-pops-one-level" if known else None
+    for b in af["blocks"]:
+        if not b["root"]:
+            w = want_block.get(b["name"])
+            if w is not None and cfg_atoms(b["cfg"]) != w:
+                return bad("block struct " + b["name"], cfg_atoms(b["cfg"]), w)
+        for m in b["methods"]:
+            w = by_loose.get(loose(m["name"]))
+            if w is not None and cfg_atoms(m["cfg"]) != w:
+                return bad("accessor " + m["name"], cfg_atoms(m["cfg"]), w)
+    for fs in af["field_sets"]:
+        base = fs["name"]
+        for suf in ("FieldsIn", "FieldsOut"):
+            if base.endswith(suf) and loose(base[:-len(suf)]) in by_loose:
+                base = base[:-len(suf)]
+        w = by_loose.get(loose(base))
+        if w is not None and cfg_atoms(fs["cfg"]) != w:
+            return bad("field set " + fs["name"], cfg_atoms(fs["cfg"]), w)
+    for en in af["enums"]:
+        w = want_enum.get(en["name"])
+        if w is not None and cfg_atoms(en["cfg"]) != w:
+            return bad("enum " + en["name"], cfg_atoms(en["cfg"]), w)
+    return None
+
+
+def multi_level_drop(objs):
+    """Does the pre-order walk ever come back up by more than one level, or come back up at all
+    while a cfg'd block is still on the stack? (the class of finding F10)"""
+    seq = []
+    def walk(os, d):
+        for o in os:
+            seq.append(d)
+            if o["kind"] == "block":
+                walk(o["objects"], d + 1)
+    walk(objs, 0)
+    # current_depth in the code is incremented at every block, so a drop of >= 2 relative to it
+    cur = 0
+    flat = []
+    def walk2(os, d):
+        for o in os:
+            flat.append((d, o["kind"] == "block"))
+            if o["kind"] == "block":
+                walk2(o["objects"], d + 1)
+    walk2(objs, 0)
+    for d, isb in flat:
+        if d < cur:
+            if cur - d >= 2:
+                return True
+            cur = d
+        if isb:
+            cur += 1
+    return False
+
+
+RULES["C18"] = ("object trees of depth 0..4 with cfg'd and plain blocks, objects and fields (with inline enums), built so that "
+                "objects follow the end of nested blocks at every shallower depth; non-trivial = at least one cfg and one block; "
+                "distinct = distinct (syntax, definition)")
+CHECKS["C18"] = check_c18
+NONTRIVIAL["C18"] = lambda c: c.get("profile") == "cfg" and '"cfg"' in json.dumps(c["adef"]) and '"block"' in json.dumps(c["adef"])
